@@ -206,8 +206,11 @@ def unfinished (s : State) (t : Nat) : Bool :=
 def mainJoinPc (cfg : Cfg) : Pc := if nclients cfg = 0 then .mDLock else .mJoinC 0
 def mainJoinEv (cfg : Cfg) (t : Nat) : List String := if nclients cfg = 0 then [ev t "dtor"] else []
 
-def mainScriptPc (cfg : Cfg) : Pc := if cfg.mainCalls.isEmpty then mainJoinPc cfg else .call 0 .lock
-def mainScriptEv (cfg : Cfg) (t : Nat) : List String := if cfg.mainCalls.isEmpty then mainJoinEv cfg t else []
+/-- the calls the main thread makes itself -/
+def mainScript (cfg : Cfg) : List Act := cfg.mainCalls.takeWhile (· != .throw)
+
+def mainScriptPc (cfg : Cfg) : Pc := if (mainScript cfg).isEmpty then mainJoinPc cfg else .call 0 .lock
+def mainScriptEv (cfg : Cfg) (t : Nat) : List String := if (mainScript cfg).isEmpty then mainJoinEv cfg t else []
 
 /-- id of the job a worker is executing -/
 def jobId (th : Thread) : Nat := (th.job.map (·.id)).getD 0
